@@ -23,6 +23,10 @@
 //! the concurrently used chain>` is the final-state comparison); `conc opclass` ties the ops
 //! driven here to the regenerated lock table; `conc sim` replays the per-thread op sequences
 //! on the model's transition system.
+//!
+//! Run `txcount` (own section below): the open-transaction counter of store/src/lmdb.rs under
+//! simultaneous use by many reader threads and a writer, followed by forced map resizes under a
+//! watchdog (`conc txcount … => completed`; model: Model/TxCount.lean).
 use grin_chain::{Chain, Options};
 use grin_core::core::hash::{Hash, Hashed};
 use grin_core::core::pmmr::segment::SegmentIdentifier;
